@@ -662,6 +662,11 @@ class HttpStreamSession:
                     batch, custom_metadata, self._external_config, self._on_log, reader.ipc_validation
                 )
                 yield AnnotatedBatch(batch=resolved_batch, custom_metadata=resolved_cm)
+                if self._finished:
+                    # cancel() ran while this iterator was suspended: stop here instead of
+                    # following the continuation token, which would make the server run
+                    # the state again after its on_cancel hook.
+                    return  # type: ignore[unreachable]  # cancel() sets the flag while the generator is suspended
         except RpcError:
             if reader is not None:
                 _drain_stream(reader)
@@ -777,6 +782,9 @@ class HttpStreamSession:
         ``cancel()``, the session is marked finished; further ``exchange()``
         or iteration raises ``RpcError``.
         """
+        # Batches buffered from an earlier response are dropped too: a cancelled session
+        # hands out nothing more (cleared in place, so a suspended iterator sees it).
+        self._pending_batches.clear()
         if self._finished or self._state_bytes is None:
             self._finished = True
             self._state_bytes = None
